@@ -307,7 +307,13 @@ def c09_state(ctx):
     state_discipline(ctx, ('bespokeasm.assembler.preprocessor', 'bespokeasm.assembler.line_object.preprocessor_line', 'bespokeasm.assembler.line_object.factory'))
 
 
-RULES = [c09_predefined, c09_1, c09_2, c09_3, c09_4, c09_5, c09_state]
+def c09_text(ctx):
+    """The replacement text of a #define is what was written: the only change made to a directive line before it is parsed is the
+    normalisation of the blank(s) after the directive keyword (C18.2)."""
+    from rules.c18 import c18_2
+    c18_2(ctx)
+
+RULES = [c09_predefined, c09_1, c09_2, c09_3, c09_4, c09_5, c09_state, c09_text]
 
 _P = 'assembler/preprocessor/__init__.py'
 _F = 'assembler/line_object/factory.py'
